@@ -746,6 +746,56 @@ def desugar_program(P, policy=None, closures_only=False, expand_try=False):
         lst = P.by_file[old.file]
         if old in lst:
             lst[lst.index(old)] = v
+    # a closure whose code now runs inside the function that built it, and that is handed to nothing any more, is not
+    # a function of its own in this picture (rules would otherwise judge its free-standing copy with opaque captures)
+    dropped = []
+    for k, v in views.items():
+        inl = set(getattr(v, "inlined_callees", []) or [])
+        if not inl:
+            continue
+        built = {}
+        for blk in v.raw["blocks"]:
+            for st in blk["stmts"]:
+                if st.get("k") == "assign" and st["rv"]["k"] == "aggregate" and st["rv"].get("agg") == "closure" and not st["place"]["p"]:
+                    built.setdefault(norm(st["rv"]["closure"]), set()).add(st["place"]["l"])
+        passed = set()
+        for blk in v.raw["blocks"]:
+            t = blk["term"]
+            if t["k"] == "call":
+                for a in t["args"]:
+                    if a.get("k") in ("copy", "move"):
+                        passed.add(a["place"]["l"])
+                    if a.get("k") == "const" and a.get("closure"):
+                        passed.add(norm(a["closure"]))
+            for st in blk["stmts"]:
+                if st.get("k") == "assign" and st["rv"]["k"] == "aggregate":
+                    for f in st["rv"]["fields"]:
+                        if f["op"].get("k") in ("copy", "move"):
+                            passed.add(f["op"]["place"]["l"])      # stored into something: may be called later
+        for ck in inl:
+            cb = P.bodies.get(ck)
+            if cb is None or not cb.is_closure:
+                continue
+            locs = built.get(ck, set())
+            if ck in passed or any(l in passed for l in locs):
+                continue
+            # also not referenced from any other body
+            dropped.append(ck)
+    for ck in dropped:
+        used_elsewhere = False
+        for k2, b2 in P.bodies.items():
+            if k2 == ck or ck in (getattr(b2, "inlined_callees", []) or []):
+                continue
+            for blk in b2.raw["blocks"]:
+                for st in blk["stmts"]:
+                    if st.get("k") == "assign" and st["rv"]["k"] == "aggregate" and st["rv"].get("agg") == "closure" and \
+                            norm(st["rv"]["closure"]) == ck:
+                        used_elsewhere = True
+        if used_elsewhere:
+            continue
+        old = P.bodies.pop(ck, None)
+        if old is not None and old in P.by_file.get(old.file, []):
+            P.by_file[old.file].remove(old)
     P._callgraph = None
     P._children = None
     P.desugared_bodies = sorted(views)
